@@ -47,7 +47,14 @@ def _run_one(job):
     class _Limit(BaseException):
         pass
 
+    fired = []
+
     def _alarm(signum, frame):
+        # raised wherever the interpreter is - inside a ctypes argument conversion it surfaces as ctypes.ArgumentError,
+        # inside generic handlers of the generator it may be taken for an internal error: hence the flag, and the alarm
+        # is re-armed so that the unit cannot continue unbounded after one swallowed exception
+        fired.append(1)
+        signal.alarm(20)
         raise _Limit()
 
     old_handler = signal.signal(signal.SIGALRM, _alarm)
@@ -58,7 +65,10 @@ def _run_one(job):
             res = run_unit(spec, timeout_s=timeout_s, want_smt2=want_smt2)
         else:
             res = run_lemma(mod.LEMMAS[idx], timeout_s=timeout_s, want_smt2=want_smt2)
-    except _Limit:
+    except BaseException as e:  # noqa: BLE001
+        if not fired and not isinstance(e, _Limit):
+            raise
+        signal.alarm(0)
         from pyvc.spec import UnitResult
 
         u = mod.UNITS[idx] if kind == "unit" else mod.LEMMAS[idx]
@@ -67,8 +77,84 @@ def _run_one(job):
     finally:
         signal.alarm(0)
         signal.signal(signal.SIGALRM, old_handler)
+    if fired and not res.unsupported:
+        # the limit fired but was absorbed inside the generator: whatever the unit reports afterwards is not a verdict
+        res.unsupported = f"the VC generator did not finish this unit within {limit} s (wall clock)"
+        res.error = ""
+        res.obligations = []
     d = asdict(res)
     return d
+
+
+def _placeholder(job, text, error=False):
+    """result record of a unit whose worker process did not deliver one"""
+    from pyvc.spec import UnitResult
+
+    kind, modname, idx = job[0], job[1], job[2]
+    mod = importlib.import_module(modname)
+    u = mod.UNITS[idx] if kind == "unit" else mod.LEMMAS[idx]
+    res = UnitResult(u.unit_name() if kind == "unit" else "lemma:" + u.name, getattr(u, "func", ""))
+    if error:
+        res.error = text
+    else:
+        res.unsupported = text
+    return asdict(res)
+
+
+def _child(job, conn):
+    try:
+        d = _run_one(job)
+    except BaseException as e:  # noqa: BLE001
+        d = _placeholder(job, f"worker failed: {type(e).__name__}: {e}", error=True)
+    try:
+        conn.send(d)
+    finally:
+        conn.close()
+
+
+def _run_jobs(jobs, njobs):
+    """One process per unit, at most njobs at a time. The in-process alarm of _run_one cannot interrupt a long call inside
+    the solver library (a simplification of a huge term does not return to the interpreter), so the parent enforces a hard
+    limit on top of it: the worker is killed and the unit is UNDECIDED."""
+    import time as _time
+
+    ctx = mp.get_context("fork")
+    results = [None] * len(jobs)
+    pending = list(enumerate(jobs))
+    running = {}
+    while pending or running:
+        while pending and len(running) < njobs:
+            i, job = pending.pop(0)
+            rd, wr = ctx.Pipe(duplex=False)
+            p = ctx.Process(target=_child, args=(job, wr))
+            p.start()
+            wr.close()
+            soft = int(os.environ.get("PYVC_UNIT_LIMIT_S", "900" if job[3] <= 60 else "3600"))
+            running[i] = (p, rd, _time.time(), job, soft + 180)
+        progressed = False
+        for i, (p, rd, t0, job, hard) in list(running.items()):
+            if rd.poll(0):
+                try:
+                    results[i] = rd.recv()
+                except EOFError:
+                    results[i] = _placeholder(job, f"the worker process of this unit ended without a result (exit code {p.exitcode})", error=True)
+                p.join()
+                del running[i]
+                progressed = True
+            elif not p.is_alive():
+                p.join()
+                results[i] = _placeholder(job, f"the worker process of this unit ended without a result (exit code {p.exitcode})", error=True)
+                del running[i]
+                progressed = True
+            elif _time.time() - t0 > hard:
+                p.kill()
+                p.join()
+                results[i] = _placeholder(job, f"the VC generator did not finish this unit within {hard} s (wall clock, worker killed)")
+                del running[i]
+                progressed = True
+        if not progressed:
+            _time.sleep(0.05)
+    return results
 
 
 def _fill_known_contracts():
@@ -152,9 +238,7 @@ def main(argv=None):
     jobs += [("lemma", modname, i, timeout_s, want_smt2) for i in range(len(getattr(mod, "LEMMAS", [])))]
     results = []
     if jobs:
-        ctx = mp.get_context("fork")
-        with ctx.Pool(min(args.jobs, len(jobs))) as pool:
-            results = pool.map(_run_one, jobs, chunksize=1)
+        results = _run_jobs(jobs, min(args.jobs, len(jobs)))
 
     known = json.loads((VERIF / "known_findings.json").read_text()) if (VERIF / "known_findings.json").exists() else {"findings": []}
     open_findings = [f for f in known.get("findings", []) if f.get("property") == pid and f.get("status") == "open"]
